@@ -17,6 +17,7 @@ import json
 import os
 import warnings
 import zlib
+from concurrent.futures import ThreadPoolExecutor
 from typing import Any, Callable, Dict, List, Optional, Sequence, Tuple
 
 from engine import steploop
@@ -1008,31 +1009,49 @@ def signature_of(t: dict, v: Any) -> str:
             f"compress={c['compress']}")
 
 
-def judge(ctx: Ctx, traces: List[dict], label: str) -> List[Any]:
+_pool: Optional[ThreadPoolExecutor] = None
+_pending: List[Tuple[Any, List[dict], str]] = []
+
+
+def pool() -> ThreadPoolExecutor:
+    global _pool
+    if _pool is None:
+        _pool = ThreadPoolExecutor(max_workers=10)
+    return _pool
+
+
+def judge(ctx: Ctx, traces: List[dict], label: str) -> None:
+    """Hand a batch to TLC in the background (the harness goes on driving the code); settle() collects."""
     if not traces:
-        return []
-    verdicts, res = validate_batch("HttpWriterTrace", "HttpWriterTrace.cfg", [strip_for_tlc(t) for t in traces],
-                                   timeout=ctx.pick(900, 2400), env=TLC_ENV)
-    if res.violated:
-        raise MachineryError(f"reference invariant {res.violated} failed during trace validation ({label}):\n"
-                             + "\n".join(res.output.splitlines()[-30:]))
-    ctx.add_trace_batch(len(traces), res)
-    for t, v in zip(traces, verdicts):
-        for d in (v.info or []):
-            ctx.drift(d[1])
-        ev0 = t["events"][0] if t["events"] else {}
-        if ev0.get("ev") == "ser":
-            ctx.distinct.add(("ser", ev0["scen"], ev0["out"], tuple(sorted(set(ev0["cls"]))), ev0["enc"]))
-        elif ev0.get("ev") == "msg":
-            ctx.distinct.add(("msg", json.dumps(ev0.get("recipe", {}), sort_keys=True)))
-        else:
-            ctx.distinct.add(("ops", json.dumps([t["cfg"]["chunked"], t["cfg"]["length"], t["cfg"]["compress"]]
-                                                + [[e["op"], len(e["data"]), e["big"]] for e in t["events"]])))
-        if not v.ok:
-            ctx.violation(v.clause, signature_of(t, v),
-                          {"trace": t, "failed_at": v.pos, "label": label,
-                           "what": NAMED_DEVIATIONS.get(v.clause, "")}, "trace")
-    return verdicts
+        return
+    fut = pool().submit(validate_batch, "HttpWriterTrace", "HttpWriterTrace.cfg", [strip_for_tlc(t) for t in traces],
+                        timeout=ctx.pick(1500, 3600), env=TLC_ENV)
+    _pending.append((fut, traces, label))
+
+
+def settle(ctx: Ctx) -> None:
+    while _pending:
+        fut, traces, label = _pending.pop(0)
+        verdicts, res = fut.result()
+        if res.violated:
+            raise MachineryError(f"reference invariant {res.violated} failed during trace validation ({label}):\n"
+                                 + "\n".join(res.output.splitlines()[-30:]))
+        ctx.add_trace_batch(len(traces), res)
+        for t, v in zip(traces, verdicts):
+            for d in (v.info or []):
+                ctx.drift(d[1])
+            ev0 = t["events"][0] if t["events"] else {}
+            if ev0.get("ev") == "ser":
+                ctx.distinct.add(("ser", ev0["scen"], ev0["out"], tuple(sorted(set(ev0["cls"]))), ev0["enc"]))
+            elif ev0.get("ev") == "msg":
+                ctx.distinct.add(("msg", json.dumps(ev0.get("recipe", {}), sort_keys=True)))
+            else:
+                ctx.distinct.add(("ops", json.dumps([t["cfg"]["chunked"], t["cfg"]["length"], t["cfg"]["compress"]]
+                                                    + [[e["op"], len(e["data"]), e["big"]] for e in t["events"]])))
+            if not v.ok:
+                ctx.violation(v.clause, signature_of(t, v),
+                              {"trace": t, "failed_at": v.pos, "label": label,
+                               "what": NAMED_DEVIATIONS.get(v.clause, "")}, "trace")
 
 
 def sample_of(t: dict) -> dict:
@@ -1100,16 +1119,17 @@ def ops_cfg(maxops: int, maxsize: int, lengths: Sequence[int], mut: str = "") ->
                      OPS_CFG.format(maxops=maxops, maxsize=maxsize, lengths=ls, mut=mut))
 
 
-# scenarios that get every one of the 0x110000 code points in the thorough tier (one per distinct
-# validation / encoding site); the others get the whole BMP + a seeded sample of the astral planes
-# (client.method and the cookie names are white-lists: everything outside the token set is refused)
+# raw positions that get every one of the 0x110000 code points in the thorough tier (one per distinct
+# validation site); the others (same validation code reached through another path, and the positions
+# that percent-/quote-encode, where code points >= 0x100 are all treated alike) get the whole BMP + a
+# seeded sample of the astral planes
 PRIMARY = {"client.target", "client.target-encoded", "client.header-name", "client.header-value",
-           "client.cookie-value", "server.reason", "server.set_cookie-value", "server.set_cookie-path",
-           "multipart.part-header-value", "formdata.name", "formdata.filename"}
+           "server.reason", "server.set_cookie-path", "multipart.part-header-value"}
 
 # positions guarded by a white-list (token characters only): every other code point is refused alone, so a
 # block never passes; the thorough tier walks 0x800..0x1FFF singly there and samples the rest
-WHITELISTS = {"client.method", "client.cookie-name", "server.set_cookie-name", "client.multipart-boundary"}
+WHITELISTS = {"client.method", "client.cookie-name", "server.set_cookie-name", "client.multipart-boundary",
+              "formdata.name"}
 
 FAST_PATHS = ["WriteCoalesced", "WriteEofCoalesced", "WriteEofCoalescedZ", "SetEofCoalesced"]
 
@@ -1126,7 +1146,7 @@ def msg_trace(ev: dict, src: str) -> dict:
 class Acc:
     """Collects traces and hands them to TLC in large batches (JVM start-up dominates small ones)."""
 
-    def __init__(self, ctx: Ctx, label: str, limit: int = 20000) -> None:
+    def __init__(self, ctx: Ctx, label: str, limit: int = 5000) -> None:
         self.ctx, self.label, self.limit, self.buf = ctx, label, limit, []
 
     def add(self, t: dict) -> None:
@@ -1140,14 +1160,33 @@ class Acc:
             self.buf = []
 
 
-def run_part_a(ctx: Ctx, kit: Kit, scen: List[Scenario]) -> None:
+def start_models(ctx: Ctx) -> Dict[str, Any]:
+    """All TLC model runs of this check are independent of the harness: start them now, use them later."""
+    mo, ms, ls = ctx.pick((6, 1, (0, 1, 2)), (7, 2, (0, 1, 3)))
+    smo, sms = ctx.pick((8, 3), (10, 3))
+    p = pool()
+    return {
+        "ser_model": p.submit(run_tlc, "HttpWriterSerMC", ser_cfg(3), workers=16, timeout=ctx.pick(900, 2400),
+                              deadlock=False),
+        "ser_cover": p.submit(cover_behaviours, "HttpWriterSerMC", ser_cfg(ctx.pick(2, 3)),
+                              timeout=ctx.pick(900, 2400), workers=4),
+        "ops_model": p.submit(run_tlc, "HttpWriterMC", ops_cfg(mo, ms, ls), workers=16, timeout=ctx.pick(900, 3000),
+                              deadlock=False, coverage=True),
+        "ops_model_name": f"HttpWriterMC(MaxOps={mo},MaxSize={ms},Lengths={list(ls)})",
+        "ops_cover": p.submit(cover_behaviours, "HttpWriterMC", ops_cfg(4, 1, (0, 1)), timeout=900, workers=4),
+        "ops_sim": p.submit(simulate_behaviours, "HttpWriterMC", ops_cfg(smo, sms, (0, 1, 2, 3, 5)),
+                            num=ctx.pick(300, 3000), depth=smo + 1, seed=ctx.seed, timeout=900),
+        "sim_maxsize": sms,
+    }
+
+
+def run_part_a(ctx: Ctx, kit: Kit, scen: List[Scenario], pre: Dict[str, Any]) -> None:
     # ---- 1. bounded model of the rule
-    res = run_tlc("HttpWriterSerMC", ser_cfg(3), workers=16, timeout=ctx.pick(600, 1800), deadlock=False)
+    res = pre["ser_model"].result()
     ctx.expect_model_ok("HttpWriterSerMC(MaxLen=3)", res)
     ctx.log(f"SerializeRule model: {res.distinct} (position, class string) states, ok={res.ok}, {res.wall_s:.0f}s")
     # ---- 2. spec -> code: every class string TLC lists, in every scenario of its position
-    maxlen = ctx.pick(2, 3)
-    behs, res2 = cover_behaviours("HttpWriterSerMC", ser_cfg(maxlen), timeout=ctx.pick(600, 1800), workers=4)
+    behs, res2 = pre["ser_cover"].result()
     pairs = set()
     for beh in behs:
         for _label, st in beh:
@@ -1192,8 +1231,10 @@ def run_part_a(ctx: Ctx, kit: Kit, scen: List[Scenario]) -> None:
             acc.add(ser_trace(ev, "sweep"))
         ranges = ctx.pick([(single_below, 0x7FF)],
                           full if sc.name in PRIMARY else [(0x800, 0x1FFF)] if sc.name in WHITELISTS else bmp)
+        # the decoders of the encoded positions recurse per byte and copy: keep their lines short
+        bsize = 16 if sc.enc != "raw" else ctx.pick(64, 128)
         for lo, hi in ranges:
-            for blk in G.blocks(lo, hi, ctx.pick(64, 128)):
+            for blk in G.blocks(lo, hi, bsize):
                 stack = [blk]
                 while stack:
                     b = stack.pop()
@@ -1218,12 +1259,10 @@ def run_part_a(ctx: Ctx, kit: Kit, scen: List[Scenario]) -> None:
     acc.flush()
 
 
-def run_part_b(ctx: Ctx, kit: Kit) -> None:
+def run_part_b(ctx: Ctx, kit: Kit, pre: Dict[str, Any]) -> None:
     # ---- 1. bounded model of the call sequences
-    mo, ms, ls = ctx.pick((6, 1, (0, 1, 2)), (7, 2, (0, 1, 3)))
-    res = run_tlc("HttpWriterMC", ops_cfg(mo, ms, ls), workers=16, timeout=ctx.pick(600, 2400), deadlock=False,
-                  coverage=True)
-    ctx.expect_model_ok(f"HttpWriterMC(MaxOps={mo},MaxSize={ms},Lengths={list(ls)})", res)
+    res = pre["ops_model"].result()
+    ctx.expect_model_ok(pre["ops_model_name"], res)
     for name, (_d, total) in res.coverage.items():
         if name in LABEL_OPS:
             ctx.action_cover[name] = total
@@ -1233,16 +1272,15 @@ def run_part_b(ctx: Ctx, kit: Kit) -> None:
     ctx.log(f"WriterOps model: {res.distinct} states, ok={res.ok}, {res.wall_s:.0f}s; fast paths "
             + ", ".join(f"{a}={ctx.action_cover.get(a, 0)}" for a in FAST_PATHS))
     # ---- 2. spec -> code: transition cover of the small graph + simulated longer sequences
-    cmo, cms, cls_ = 4, 1, (0, 1)
-    behs, _r = cover_behaviours("HttpWriterMC", ops_cfg(cmo, cms, cls_), timeout=600, workers=4)
+    cms = 1
+    behs, _r = pre["ops_cover"].result()
     seqs: List[Tuple[dict, List[Tuple[str, int, bool]], str]] = []
     for beh in behs:
         mode, calls = behaviour_calls(beh, cms)
         seqs.append((mode, calls, "tlc-cover"))
     ncover = len(seqs)
-    smo, sms = ctx.pick((8, 3), (10, 3))
-    sims, _r2 = simulate_behaviours("HttpWriterMC", ops_cfg(smo, sms, (0, 1, 2, 3, 5)), num=ctx.pick(300, 3000),
-                                    depth=smo + 1, seed=ctx.seed, timeout=600)
+    sms = pre["sim_maxsize"]
+    sims, _r2 = pre["ops_sim"].result()
     for beh in sims:
         mode, calls = behaviour_calls(beh, sms)
         seqs.append((mode, calls, "tlc-sim"))
@@ -1252,8 +1290,8 @@ def run_part_b(ctx: Ctx, kit: Kit) -> None:
     ctx.log(f"call sequences: {ncover} transition-cover paths, {len(sims)} simulated, {len(seqs) - ncover - len(sims)} random")
     traces = [replay_ops(kit, mode, calls, src) for mode, calls, src in seqs]
     ctx.sample(sample_of(traces[min(len(traces) - 1, 17)]))
-    for k in range(0, len(traces), 20000):
-        judge(ctx, traces[k:k + 20000], "stream-writer-ops")
+    for k in range(0, len(traces), 1500):
+        judge(ctx, traces[k:k + 1500], "stream-writer-ops")
     # python-side refinement note: a call that awaits drain() blocks while the transport is paused
     # ---- 3. complete messages through the public API, every payload class
     recipes = fixed_recipes()
@@ -1280,8 +1318,8 @@ def run_part_b(ctx: Ctx, kit: Kit) -> None:
     ctx.log(f"complete messages: {len(traces)} (payload size vs written: "
             + ", ".join(f"{k}:{v['size_differs']}/{v['runs']} differ" for k, v in sorted(sizes.items())) + ")")
     ctx.sample(sample_of(traces[3]))
-    for k in range(0, len(traces), 20000):
-        judge(ctx, traces[k:k + 20000], "messages")
+    for k in range(0, len(traces), 1000):
+        judge(ctx, traces[k:k + 1000], "messages")
 
 
 def run(ctx: Ctx) -> None:
@@ -1310,10 +1348,14 @@ def run(ctx: Ctx) -> None:
         for sc in scen:
             sc.template(kit)
         ctx.extra["scenarios"] = [s.name for s in scen]
-        run_part_a(ctx, kit, scen)
-        run_part_b(ctx, kit)
+        pre = start_models(ctx)
+        run_part_a(ctx, kit, scen, pre)
+        run_part_b(ctx, kit, pre)
+        settle(ctx)
         ctx.evaluations = ctx.traces
     finally:
+        if _pool is not None:
+            _pool.shutdown(wait=True, cancel_futures=True)
         kit.close()
 
 
